@@ -1272,6 +1272,7 @@ impl DnsRegistry {
             let probe = match self.probing.get_mut(record.get_name()) {
                 Some(p) => {
                     p.start_time = probe_time; // restart this probe.
+                    p.next_send = probe_time;
                     p
                 }
                 None => {
